@@ -41,6 +41,11 @@ Lemma cmp_lt_nofuse (s : store) a b :
   fuse s = None -> cmp_lt ple s a b = Ok (plt ple a b, set_ticks s (S (ticks s))).
 Proof. intros H. unfold cmp_lt. rewrite cb_nofuse by done. reflexivity. Qed.
 
+Lemma cmp_lt_hole_nofuse (s : store) pos idx a b :
+  fuse s = None ->
+  cmp_lt_hole ple s pos idx a b = Ok (plt ple a b, set_ticks s (S (ticks s))).
+Proof. intros H. unfold cmp_lt_hole. rewrite cmp_lt_nofuse by done. reflexivity. Qed.
+
 Lemma plt_alt a b : plt ple a b = alt ple a b.
 Proof. reflexivity. Qed.
 
@@ -213,7 +218,7 @@ Lemma bubble_up_loop_sim (fuel : nat) : forall (s : store) pos idx e,
   pos < fuel ->
   exists s' pos' l' t,
     asift_up pr ple fuel (eview (fill s pos idx)) pos = (l', pos', t) /\
-    bubble_up_loop ple fuel s pos e.2 = Ok (pos', s') /\
+    bubble_up_loop ple fuel s pos idx e.2 = Ok (pos', s') /\
     WF (fill s' pos' idx) /\ eview (fill s' pos' idx) = l' /\
     smap s' = smap s /\ ssize s' = ssize s /\ ticks s' = ticks s + t /\
     fuse s' = fuse s /\ cap s' = cap s /\ pos' <= pos.
@@ -230,7 +235,7 @@ Proof.
   rewrite Hxp. rewrite (eview_fill_pos s (S k) idx HWF Hp), He.
   rewrite <- (fill_prio_at s (S k) idx pa) by lia.
   rewrite (prio_at_ok _ _ _ HWF Hxp). cbn [mbind res_bind rbind].
-  rewrite cmp_lt_nofuse by done. cbn [mbind res_bind rbind]. change (plt ple xp.2 e.2) with (alt ple xp.2 e.2).
+  rewrite cmp_lt_hole_nofuse by done. cbn [mbind res_bind rbind]. change (plt ple xp.2 e.2) with (alt ple xp.2 e.2).
   set (s1 := set_ticks s (S (ticks s))).
   destruct (alt ple xp.2 e.2) eqn:Hb.
   - (* the parent moves down *)
